@@ -14,6 +14,7 @@ class WsMock:
         self.latched = None                    # guid the host regards as attested
         self.issued = {}                       # guid -> secret (every key ever issued)
         self.latched_history = []              # guids in latch order
+        self.delivered_in_malformed_document = {}   # guid -> secret sent to the guest inside a key document it may not be able to parse
         self.log = []                          # (t, kind, detail)
         self.faults = {}                       # step -> list of fault specs consumed one per call; steps: status, acquire, attest
         self.key_dir = key_dir
@@ -85,6 +86,24 @@ class WsMock:
         if t == b"/secure-channel/key" and req.method == b"POST":
             f = self._take_fault("acquire")
             self.log.append((now, "acquire", "fault" if f else "ok"))
+            if f and f.get("kind") == "mangled-key-document":
+                # the host issues a key, but the document that carries it is malformed (or has a member the guest does not know)
+                k = self.new_key()
+                self.delivered_in_malformed_document[k["guid"]] = k["key"]
+                self.log.append((now, "issued-in-malformed-document", k["guid"]))
+                how = f.get("how", "wrong-type")
+                if how == "wrong-type":
+                    k["incarnationId"] = "one"
+                elif how == "missing-member":
+                    k.pop("issued")
+                body = json.dumps(k)
+                if how == "truncated":
+                    body = body[:-1]
+                elif how == "trailing":
+                    body += " trailing"
+                elif how == "extra-member":
+                    body = body[:-1] + ', "keyDeliveryMethod": "http"}'
+                return {"status": 200, "headers": [("Content-Type", "application/json; charset=utf-8")], "body": body.encode()}
             if f:
                 return self._apply_fault(f)
             k = self.new_key()
